@@ -5,10 +5,11 @@ CONSTANT Ks = {0}
 CONSTANT MaxRank = 1
 CONSTANT MaxCand = 1
 CONSTANT NCs = {1, 2, 3}
-CONSTANT NBs = {1, 2}
+CONSTANT NBs = {1, 2, 3}
 CONSTANT Ss = {3, 4}
 CONSTANT Wrap = TRUE
 CONSTANT Guard = TRUE
+CONSTANT Walk = TRUE
 INIT Init
 NEXT Next
 CHECK_DEADLOCK FALSE
